@@ -11,6 +11,15 @@
   a PeerDown removes every entry of that peer.  `ribV m st key` is what `iter_reach` /
   `iter_reach_post` yield for that key.
 
+  Scope of the proved fragment (`caseOk`): insert / remove / soft reset IN (from any thread) /
+  import-policy change / session up / non-retaining session down / subscribe / unsubscribe.
+  The purge class (GR-retaining session end, `drop_stale_families`, `drop_families`,
+  `mark_llgr_stale`, `drop_llgr_stale_families`) is modelled and run against the real code, but
+  the property FAILS there (finding S28b): the full statement is `C18_full`, refuted below by a
+  concrete case.  The clause of the checker that judges a BMP connection (`BmpClient::serve`) is
+  excluded from the theorem by `noBmp` and backed by the correspondence run and the oracle on the
+  real connection only.
+
   The proofs are corollaries of `Rbgp.Monitor.Proofs` (the invariant `Inv` is preserved by every
   atomic step: `step_inv`) and `Rbgp.Monitor.ProofsRun`.
 -/
@@ -20,11 +29,36 @@ open Rbgp.Monitor
 
 /-! ## 0. The reference checker accepts every model schedule -/
 
-/-- For every well-formed case — any number of shards, sessions, subscribers, any operations and
-    ANY schedule string, at either granularity — the reference checker written from the property
-    text accepts the observation of the model's run. -/
-theorem check_run_ok (c : Case) (hc : caseOk c = true) : Spec.check c (observe c (run c)) = .ok :=
-  Rbgp.Monitor.check_run_ok c hc
+/-- only shard indices that exist (what the case parser guarantees) -/
+def shardsOk (c : Case) : Bool := c.threads.all fun t => t.2.all fun o => match o with
+  | .ins k _ _ _ => decide (k < c.n) | .rem k _ _ => decide (k < c.n) | _ => true
+
+/-- The full-strength statement: the reference checker accepts every run of every case. -/
+def C18_full : Prop := ∀ c : Case, shardsOk c = true → Spec.check c (observe c (run c)) = .ok
+
+/-- The proved part.  For every case without operations of the purge class (`caseOk`) and without
+    BMP connections (`noBmp`) — any number of shards, sessions, subscribers, ANY schedule string,
+    at either granularity — the reference checker written from the property text accepts the
+    observation of the model's run. -/
+theorem check_run_ok_partial (c : Case) (hc : caseOk c = true) (hb : noBmp c = true) :
+    Spec.check c (observe c (run c)) = .ok :=
+  check_run_ok_of_noBmp c hc hb
+
+/-- The purge class breaks the property (S28b): a session ends with GR negotiated (PeerDown is
+    sent, the routes are retained as stale), a subscriber then subscribes and gets the stale route
+    in its snapshot, `drop_stale_families` purges it without any event: the subscriber holds a
+    route the RIB no longer has.  Same case as the replay on the real code. -/
+def purgeWitness : Case :=
+  { n := 1, gran := 0, limit := 0
+    threads := [(true, [.up, .ins 0 0 0 5, .gdown, .purge]), (false, [.sub true])]
+    sched := [0, 0, 0, 0, 0, 1, 1] }
+
+example : Spec.check purgeWitness (observe purgeWitness (run purgeWitness)) = .fail 0 0 "purge-pre-phantom" := by
+  decide
+
+theorem C18_full_fails : ¬ C18_full := fun h => by
+  have := h purgeWitness (by decide)
+  revert this; decide
 
 /-- The invariant holds in every state reachable by any interleaving. -/
 theorem reachable_inv (c : Case) (hc : caseOk c = true) (st : St) (h : Reach c st) : Inv st :=
@@ -83,15 +117,16 @@ theorem last_event_is_current (c : Case) (hc : caseOk c = true) (st : St) (h : R
 /-! ## 3. The consumer side (bmp.rs) -/
 
 /-- Peer-down is reported only for peers whose peer-up was reported: for ANY event stream and ANY
-    set `sent` of peers already announced, in the stream forwarded by `track_peer_up` /
-    `track_peer_down` every PeerDown(p) follows a PeerUp(p) (or p ∈ sent) not yet answered. -/
+    set `sent` of peers already announced, in the stream forwarded by `send_peer_up` /
+    `send_peer_down` (`track_peer_up` / `track_peer_down`) every PeerDown(p) follows a PeerUp(p)
+    (or p ∈ sent) not yet answered. -/
 theorem peerdown_after_peerup (evs : List Ev) (sent : List Nat) :
     Spec.downsFollowUps (forward evs sent) sent = true :=
   forward_ok evs sent sent (fun _ h => h)
 
-/-- `apply_snapshot`, as `BmpClient::serve` uses it until `EndOfSnapshot`, computes per key the
-    last route event of the snapshot phase (the same fold as `view`, PeerDown being ignored in
-    that phase). -/
+/-- The snapshot phase of `BmpClient::serve` (`apply_snapshot` on route events, the peer's
+    entries dropped on a PeerDown — the repaired behaviour) computes per key the same fold as
+    `view`, up to `EndOfSnapshot`. -/
 theorem apply_snapshot_is_fold (key : Key) (q : List Ev) :
     (drainSnapshot q ([], [])).1.get key = foldSnap false key q none ∧
     (drainSnapshot q ([], [])).2.get key = foldSnap true key q none := by
@@ -99,30 +134,60 @@ theorem apply_snapshot_is_fold (key : Key) (q : List Ev) :
 
 /-! ## Non-vacuity -/
 
-/-- two shards, one session inserting into both, a subscriber whose snapshot of shard 0 comes
-    before and whose snapshot of shard 1 comes after the inserts; fine granularity -/
+/-- two shards, one session inserting into both (the second prefix is IPv6), a subscriber whose
+    snapshot of shard 0 comes before and whose snapshot of shard 1 comes after the inserts, a
+    soft reset requested by another thread; fine granularity -/
 def exCase : Case :=
   { n := 2, gran := 1, limit := 0
-    threads := [(true, [.up, .ins 0 0 0 5, .ins 1 0 0 6, .rem 0 0 0]), (false, [.sub true])]
-    sched := [1, 1, 1, 0, 0, 0, 0, 0, 0, 0, 0, 1, 1] }
+    threads := [(true, [.up, .ins 0 0 0 5, .ins 1 2 0 6, .rem 0 0 0]), (false, [.sub true]), (true, [.sr 0])]
+    sched := [1, 1, 1, 1, 0, 0, 0, 0, 0, 0, 0, 0, 0, 0, 0, 0, 0, 1, 1, 2] }
 
-example : caseOk exCase = true := by decide
+example : caseOk exCase = true ∧ noBmp exCase = true := by decide
 
 /-- the hypotheses of `reconstruct_exact` are met by a run with a non-empty table: the subscriber
-    (id 0) is live and complete, the table holds (peer 0, shard 1, prefix 0, path 0) ↦ 6 and the
-    subscriber holds it too -/
+    (id 0) is live and complete, the table holds (peer 0, shard 1, prefix 2, path 0) ↦ 20006 and
+    the subscriber holds it too -/
 example : quiescent (run exCase) ∧ 0 ∈ (run exCase).subscribers ∧ 0 ∈ (run exCase).complete ∧
-    ribV false (run exCase) ⟨0, 1, 0, 0⟩ = some 6 ∧
-    view false ⟨0, 1, 0, 0⟩ ((run exCase).queues 0) = some 6 := by
+    ribV false (run exCase) ⟨0, 1, 2, 0⟩ = some 20006 ∧
+    view false ⟨0, 1, 2, 0⟩ ((run exCase).queues 0) = some 20006 := by
   have hI := reach_inv (c := exCase) (by decide) (run_reach exCase)
   refine ⟨finished_quiescent hI (by decide), by decide, by decide, by decide, by decide⟩
 
 /-- a state in the middle of a snapshot (shard 0 done, shard 1 not): both halves of
     `snapshot_invariant` have instances -/
-def exMid : St := runSched 1 3 [1, 1, 1] (init exCase)
+def exMid : St := runSched 1 5 [1, 1, 1, 1, 1] (init exCase)
 
 example : Reach exCase exMid ∧ 0 ∈ exMid.subscribers ∧ 0 ∈ exMid.done 0 ∧ 1 ∉ exMid.done 0 :=
   ⟨runSched_reach _ _ _ _ Reach.init, by decide, by decide, by decide⟩
+
+/-- a subscriber that asked for no snapshot (`last_event_is_current` is not vacuous for it):
+    it holds the route announced after it subscribed and nothing of the one announced before -/
+def exNoSnap : Case :=
+  { n := 1, gran := 0, limit := 0
+    threads := [(true, [.up, .ins 0 0 0 1, .ins 0 1 0 2]), (false, [.sub false])]
+    sched := [0, 0, 0, 1, 1] }
+
+example : 0 ∈ (run exNoSnap).subscribers ∧ 0 ∉ (run exNoSnap).complete ∧
+    touched false ⟨0, 0, 1, 0⟩ ((run exNoSnap).queues 0) ∧
+    view false ⟨0, 0, 1, 0⟩ ((run exNoSnap).queues 0) = some 30002 ∧
+    view false ⟨0, 0, 0, 0⟩ ((run exNoSnap).queues 0) = none ∧
+    ribV false (run exNoSnap) ⟨0, 0, 0, 0⟩ = some 20001 :=
+  ⟨by decide, by decide, ⟨.pre ⟨0, 0, 1, 0⟩ (some 30002), by decide, some 30002, rfl⟩, by decide, by decide, by decide⟩
+
+/-- the `droppedShard` disjunct of `snapshot_invariant` is needed: in the middle of a session
+    teardown (shard 0 dropped, PeerDown not yet sent) a subscriber that snapshotted shard 0 before
+    still holds the route the table has already lost -/
+def exDrop : Case :=
+  { n := 2, gran := 1, limit := 0
+    threads := [(true, [.up, .ins 0 0 0 5, .down]), (false, [.sub true])]
+    sched := [] }
+
+def exDropMid : St := runSched 1 16 [0, 0, 0, 0, 0, 0, 1, 1, 1, 1, 1, 0, 0, 0, 0, 0] (init exDrop)
+
+example : Reach exDrop exDropMid ∧ 0 ∈ exDropMid.subscribers ∧ 0 ∈ exDropMid.done 0 ∧
+    view false ⟨0, 0, 0, 0⟩ (exDropMid.queues 0) = some 10005 ∧ ribV false exDropMid ⟨0, 0, 0, 0⟩ = none ∧
+    (exDropMid.threads 0).drop = some [0] :=
+  ⟨runSched_reach _ _ _ _ Reach.init, by decide, by decide, by decide, by decide, by decide⟩
 
 /-- a limit-1 session whose second insert is rejected: the subscriber is told nothing about it
     (regression for S28a, fixed in insert_route) -/
@@ -131,25 +196,30 @@ def exLimit : Case :=
     threads := [(true, [.ins 0 0 0 5, .ins 1 0 0 6]), (false, [.sub true])]
     sched := [1, 1, 1, 1, 1] }
 
-example : (run exLimit).queues 0 = [.eos, .pre ⟨0, 0, 0, 0⟩ (some 5), .post ⟨0, 0, 0, 0⟩ (some 5)] ∧
+example : (run exLimit).queues 0 = [.eos, .pre ⟨0, 0, 0, 0⟩ (some 10005), .post ⟨0, 0, 0, 0⟩ (some 10005)] ∧
     ((run exLimit).threads 0).rets = [.ok, .limit] := by decide
 
 /-- soft reset after a policy change reaches a subscriber that registered after the reset
     started but before the shard's critical section (regression for S28c, fixed in soft_reset_in) -/
 def exSr : Case :=
   { n := 2, gran := 1, limit := 0
-    threads := [(true, [.ins 1 0 0 5, .pol .reject, .sr]), (false, [.sub true])]
-    sched := [0, 0, 0, 0, 0, 0, 1, 1, 1, 1] }
+    threads := [(true, [.ins 1 0 0 5, .pol .reject, .sr 0]), (false, [.sub true])]
+    sched := [0, 0, 0, 0, 0, 0, 0, 0, 1, 1, 1, 1, 1, 1, 1, 1, 1, 1] }
 
 example : view true ⟨0, 1, 0, 0⟩ ((run exSr).queues 0) = none ∧ ribV true (run exSr) ⟨0, 1, 0, 0⟩ = none ∧
-    view false ⟨0, 1, 0, 0⟩ ((run exSr).queues 0) = some 5 := by decide
+    view false ⟨0, 1, 0, 0⟩ ((run exSr).queues 0) = some 10005 := by decide
 
 /-- the forwarded stream of a consumer that never saw the PeerUp drops the PeerDown -/
 example : forward [.down 3, .up 3, .down 3, .down 3] [] = [.up 3, .down 3] := by decide
 
+/-- the snapshot phase drops the buffered routes of a peer that went down (S28d, repaired) -/
+example : (drainSnapshot [.pre ⟨0, 0, 0, 0⟩ (some 7), .down 0, .up 0, .eos] ([], [])).1.get ⟨0, 0, 0, 0⟩ = none := by
+  decide
+
 end Rbgp.Monitor.Props
 
-#print axioms Rbgp.Monitor.Props.check_run_ok
+#print axioms Rbgp.Monitor.Props.check_run_ok_partial
+#print axioms Rbgp.Monitor.Props.C18_full_fails
 #print axioms Rbgp.Monitor.Props.reachable_inv
 #print axioms Rbgp.Monitor.Props.snapshot_invariant
 #print axioms Rbgp.Monitor.Props.reconstruct_exact
